@@ -8,6 +8,7 @@ import Lemmas.RateLimiterContrast
 import Lemmas.RateLimiterWitness2
 import Lemmas.RateLimiterWindow
 import Lemmas.RateLimiterRW
+import Lemmas.RateLimiterDec
 /-! # C16 — the rate limiter never grants more than any applicable cap and never hangs
 
 Property theorems only.  The model is `Model/RateLimiter.lean`: the transition relation `RL.Step`, in which
@@ -532,6 +533,62 @@ theorem go_int_arithmetic_is_model_arithmetic (c : Nat) (s : S) (h : Reachable c
   have hne : s.chain l ≠ [] := List.ne_nil_of_mem ((tree h).self l hl)
   exact ⟨fitsGo_eq_fits _ _ _ _ hne (fun x _ => hc' x) (fun x _ => hu' x), rootGuardGo_exact _ _ (hc' 0) (hu' 0),
          fun hf => chargeGo_exact s.cap _ _ _ (fun x _ => hc' x) hf⟩
+
+/-- **the model's decisions ARE the code's, up to `MaxInt`** (audit 7, M16-1, done properly): `RL.useDecI` / `RL.tickDecI`
+    (`Model/RateLimiterInt.lean`) transcribe `Use` and one iteration of the tick's loop on machine ints — the state as Go
+    `int`s, the amount the Go `int` the caller passed, every intermediate (`effectiveCap()`'s running minimum,
+    `capacity - used` and its running minimum `available` with wrap-around, the comparisons, in the code's order) computed
+    on `Int` reduced to `[-2^63, 2^63)` — independently of `fits` / `effCap` / `RL.micro`.  In every reachable state whose
+    capacities are Go `int`s, for every limiter and EVERY amount (negative, zero, up to and beyond `MaxInt`): the
+    machine-int decision of `Use` — refuse-negative / refuse-closed / grant-zero / refuse-over-cap / grant / queue — is
+    the decision `RL.exec` acts on; and for every request and every usage vector within the caps' range (the loop's
+    running `used`), the machine-int decision of the loop iteration is the one `RL.service` acts on.  The driver runs
+    `useDecI` next to the model on every `use` line and prints `machine-int-decision-differs` if they ever disagree. -/
+theorem machine_int_decisions_are_the_models (c : Nat) (s : S) (h : Reachable c s) (hty : s.capHi ≤ maxInt)
+    (l : Nat) (hl : l < s.n) :
+    (∀ amt : Int, useDecI (castI s.cap) (castI s.used) s.closed (s.chain l) l amt = useDecN s l amt ∧
+      (s.holder = .free → exec s (.use l amt) = applyUseDec s l amt (useDecN s l amt))) ∧
+    (∀ (used : Nat → Nat) (r : Req) (rs : List Req) (p : Nat), r.lim = l → (∀ x, used x ≤ maxInt) →
+      tickDecI (castI s.cap) (castI used) s.closed (s.chain r.lim) r.lim (r.amt : Int) =
+        tickDecN s.cap s.chain s.closed used r ∧
+      service s.cap s.chain s.closed p used (r :: rs) =
+        (match tickDecN s.cap s.chain s.closed used r with
+         | .refuseClosed =>
+           let t := service s.cap s.chain s.closed p used rs
+           { t with answers := (r.id, .errClosed) :: t.answers }
+         | .refuseCap =>
+           let t := service s.cap s.chain s.closed p used rs
+           { t with answers := (r.id, .errCap) :: t.answers }
+         | .grant =>
+           let t := service s.cap s.chain s.closed p (charge used (s.chain r.lim) r.amt) rs
+           { t with answers := (r.id, .ok) :: t.answers,
+                    grants := ⟨r.id, r.lim, s.chain r.lim, r.amt, p⟩ :: t.grants }
+         | _ =>
+           let t := service s.cap s.chain s.closed p used rs
+           { t with waiting := r :: t.waiting })) := by
+  obtain ⟨hc, hu, _, _⟩ := bounded h
+  have hc' : ∀ x, s.cap x ≤ maxInt := fun x => Nat.le_trans (hc x) hty
+  have hu' : ∀ x, s.used x ≤ maxInt := fun x => Nat.le_trans (hu x) hty
+  have hself := (tree h).self l hl
+  refine ⟨fun amt => ⟨useDecI_eq_useDecN s l amt hself hc' hu', fun hf => useDecN_is_exec s hf l amt hl⟩, ?_⟩
+  intro used r rs p hr hub
+  subst hr
+  exact ⟨tickDecI_eq_tickDecN s.cap s.chain s.closed used r hself hc' hub, tickDecN_is_service _ _ _ _ _ _ _⟩
+
+/-- **contrast — adding before comparing wraps above `MaxInt/2`** (`RL.useDecSumI`: the same transcription with
+    `p.used+amount > p.capacity` in place of `amount <= available`, the shape of `seeded/ind6-c16-a`): a root of capacity
+    `2^62 + 1` — a Go `int`, just above `MaxInt/2` — that has granted all of it; a further request of `2^62 + 1` is granted
+    by the sum form (`used+amount` wraps negative) where the code's form and the model queue it: granting would put
+    twice the capacity into one period -/
+theorem adding_before_comparing_grants_what_it_must_queue :
+    Reachable 4611686018427387905 halfWitness ∧ halfWitness.capHi ≤ maxInt ∧
+    useDecSumI (castI halfWitness.cap) (castI halfWitness.used) halfWitness.closed (halfWitness.chain 0) 0
+      4611686018427387905 = .grant ∧
+    useDecI (castI halfWitness.cap) (castI halfWitness.used) halfWitness.closed (halfWitness.chain 0) 0
+      4611686018427387905 = .queue ∧
+    useDecN halfWitness 0 4611686018427387905 = .queue ∧
+    halfWitness.used 0 + 4611686018427387905 > halfWitness.cap 0 := by
+  refine ⟨halfWitness_reachable, by decide, by decide, by decide, by decide, by decide⟩
 
 /-- **contrast — the sum form of the test wraps** (`seeded/ind6-c16-a`: `p.used+amount > p.capacity` instead of
     `amount <= p.capacity-p.used`): there is a reachable state with all capacities Go `int`s — a root of capacity
